@@ -451,7 +451,8 @@ func (g *G) classes() []genClass {
 	case "C20":
 		return []genClass{{8, func(g *G, id string) *History { return g.genSWR(id) }}, {2, grid}, {1, swrInval}}
 	case "C09":
-		return []genClass{{4, urls}, {3, vary}, {3, backends}, {2, chain}, {1, func(g *G, id string) *History { return g.genRootless(id) }}, {1, func(g *G, id string) *History { return g.genHostOverride(id) }}}
+		return []genClass{{4, urls}, {3, vary}, {3, backends}, {2, chain}, {1, func(g *G, id string) *History { return g.genRootless(id) }}, {1, func(g *G, id string) *History { return g.genHostOverride(id) }},
+			{1, func(g *G, id string) *History { return g.genZoneDates(id) }}}
 	}
 	return []genClass{{1, grid}}
 }
@@ -513,7 +514,7 @@ func (g *G) next() *History {
 	k := g.r.Intn(tot)
 	for _, c := range cs {
 		if k < c.w {
-			return g.nilHeader(g.emptyMethod(c.f(g, id)))
+			return g.zonePass(g.nilHeader(g.emptyMethod(c.f(g, id))))
 		}
 		k -= c.w
 	}
@@ -549,6 +550,21 @@ func (g *G) nilHeader(h *History) *History {
 				rp.Hdr, rp.Trailer, rp.Chunked, rp.NoCL, rp.NilHdr = nil, nil, false, true, true
 			}
 		}
+	}
+	return h
+}
+
+// zonePass: the cache's process lives in some time zone; HTTP-dates do not. Some histories run with the process
+// in a zone whose abbreviation table contains "GMT" although the zone is on another abbreviation at the time
+// (Europe/Prague, Africa/Lagos all year; Europe/London in summer): a time library resolves the "GMT" of an
+// rfc850 date against that table.
+func (g *G) zonePass(h *History) *History {
+	p := 0.03
+	if g.prop == "C09" || g.prop == "C01" || g.prop == "C11" {
+		p = 0.15
+	}
+	if g.chance(p) {
+		h.TZ = pick(g, "Europe/Prague", "Africa/Lagos", "Europe/London", "America/New_York", "Asia/Kolkata")
 	}
 	return h
 }
